@@ -20,6 +20,7 @@ import (
 	"flag"
 	"fmt"
 	"os"
+	"os/signal"
 	"path/filepath"
 	"syscall"
 	"unsafe"
@@ -46,6 +47,7 @@ func main() {
 		return
 	case "run", "viarun":
 		fs := flag.NewFlagSet("run", flag.ExitOnError)
+		ignquit := fs.Bool("ignquit", false, "ignore SIGQUIT in this process: its children start out ignoring it")
 		tt := fs.String("testtimeout", "10m", "viarun: the test binary's own -test.timeout")
 		plan := fs.String("plan", "", "cases (ndjson) emitted by TLC")
 		traces := fs.String("traces", "", "observations (ndjson) for TLC")
@@ -56,6 +58,9 @@ func main() {
 		smin := fs.Int("smin", 150, "base slack in ms")
 		stagger := fs.Int("stagger", 30, "ms between the starts of two RunT calls")
 		fs.Parse(os.Args[2:])
+		if *ignquit {
+			signal.Ignore(syscall.SIGQUIT)
+		}
 		if os.Args[1] == "viarun" {
 			os.MkdirAll(*work, 0o755)
 			viaOut = filepath.Join(*work, "testout.txt")
